@@ -170,7 +170,7 @@ CLAIMED = {
              "dinf/dref/url, visual and audio sample entries, avcC, hvcC, av1C, vpcC, esds, dOps and the fragmented mvhd/tkhd/vmhd/dinf/trex/sample entries and return the configured values (timescales, dimensions, "
              "handler types, identity matrix, track ids 1/2 with next_track_ID above them); the two recorded non-conformances are proved as counterexample theorems (progressive tkhd: 88-byte payload, flags 0; vmhd "
              "flags 0) with partial theorems for the fields that are placed correctly. The same strict decoders run on the implementation's files and init segments for all codec x audio x metadata x layout configurations, "
-             "including fragmented muxers built from builder call sequences with stale parameters of other codecs; 28 of the fixed-layout builders are TRANSLATED from the Rust source on every run (tools/rs2lean.py) and proved equal to the model's boxes (Props/C19Generated.lean), so the decoder theorems are about what the translated source builds; av1C is compared with the certified reading (Spec/Av1Decode.lean) of the sequence header it carries.",
+             "including fragmented muxers built from builder call sequences with stale parameters of other codecs; 50 builder functions (fixed-layout boxes, sample tables incl. the run-length coded stts/ctts, avcC/hvcC/av1C/vpcC with their sample entries, the SPS readers of HevcConfig) are TRANSLATED from the Rust source on every run (tools/rs2lean.py) and proved equal to the model's boxes (Props/C19Generated.lean, Props/C19GeneratedTables.lean), so the decoder theorems are about what the translated source builds; av1C is compared with the certified reading (Spec/Av1Decode.lean) of the sequence header it carries.",
         note=TB + "Known findings (open, pinned by the repository's golden fixture): v-tkhd-layout, a-tkhd-layout, v-vmhd; audio-entry-rate; f-av1C-vs-configOBUs-mono (monochrome headers, same root cause as C07 av1C-csp). Fixed in this round: uvlc() with 32 leading zeros (a4392db). The strict decoders are the trusted reading of the standards (DESIGN.md Appendix A).",
         technique="Lean 4 proof (strict decoder ∘ builder = expected fields; model = mechanically translated Rust builders; counterexample theorems for recorded findings) + strict-decoder oracle on the implementation's output",
         ref="DESIGN.md section 5 C19"),
